@@ -374,6 +374,12 @@ func init() {
 	intrinsics["strings.HasSuffix"] = func(m *Machine, fr *frame, a []Value) Value {
 		return StrHasSuffix(a[0].(*Str), a[1].(*Str))
 	}
+	// three-way comparison: -1 / 0 / +1
+	intrinsics["strings.Compare"] = func(m *Machine, fr *frame, a []Value) Value {
+		x, y := a[0].(*Str), a[1].(*Str)
+		return Ite(StrEq(x, y), MkBV(64, 0), Ite(StrLess(x, y), MkBV(64, ^uint64(0)), MkBV(64, 1)))
+	}
+	intrinsics["internal/bytealg.CompareString"] = intrinsics["strings.Compare"]
 	intrinsics["strings.Index"] = func(m *Machine, fr *frame, a []Value) Value {
 		return StrIndex(a[0].(*Str), a[1].(*Str))
 	}
